@@ -906,18 +906,27 @@ func postprocessACLParts(c *cmd, parts []string) {
 			convNamed(udpNames)
 		}
 	}
+	// Skip up to n words, if command is incomplete.
+	skip := func(n int) {
+		parts = parts[min(n, len(parts)):]
+	}
 	convObjectGroup := func() {
-		name := parts[1]
-		parts[1] = "$REF"
-		c.ref = append(c.ref, name)
-		parts = parts[2:]
+		if len(parts) >= 2 {
+			name := parts[1]
+			parts[1] = "$REF"
+			c.ref = append(c.ref, name)
+		}
+		skip(2)
 	}
 	convProto := func() {
+		if len(parts) == 0 {
+			return
+		}
 		switch parts[0] {
 		case "object-group":
 			convObjectGroup()
 		case "object":
-			parts = parts[2:]
+			skip(2)
 		default:
 			if name, found := protoNonNumeric[parts[0]]; found {
 				parts[0] = name
@@ -945,7 +954,7 @@ func postprocessACLParts(c *cmd, parts []string) {
 				convNamed(logNames)
 			case "host", "object", "object-group-security", "object-group-user",
 				"security-group", "user", "user-group":
-				parts = parts[2:]
+				skip(2)
 			case "any", "any4", "any6", "interface":
 				parts = parts[1:]
 			default:
